@@ -208,4 +208,18 @@ example :
     (characterBuffered (stdSetcbreak id) (fun a => (a, true)) t).raised = true ∧
     cbreakAlreadySet (characterBuffered (stdSetcbreak id) (fun a => (a, true)) t).during = true := by decide
 
+/-- the other side of `bracket_inert_unless_plain_foreground_tty` (known finding
+    `C08-command-reconfigures-already-cbreak-tty`): when the bracket is inert - not a tty, not foregrounded, or ALREADY in
+    cbreak mode - nothing was saved, so whatever the body does to the terminal stays -/
+theorem inert_bracket_keeps_body_changes (sc : TtyAttrs → TtyAttrs) (body : TtyAttrs → TtyAttrs × Bool) (t : TtyEnv)
+    (h : touches t = false) : (characterBuffered sc body t).after = (body t.attrs).1 := by
+  unfold characterBuffered; simp [h]
+
+/-- ... witnessed: a terminal already in cbreak mode, a body that switches ECHO and ICANON back on - the mode after the
+    call is not the mode before it -/
+theorem already_cbreak_body_change_counterexample :
+    let t : TtyEnv := { isTty := true, foreground := true, attrs := { echo := false, icanon := false, vmin := 1, vtime := 0, rest := 0 } }
+    (characterBuffered (stdSetcbreak id) (fun a => ({ a with echo := true, icanon := true }, false)) t).after ≠ t.attrs := by
+  decide
+
 end Inv
